@@ -209,8 +209,22 @@ func init() {
 		}
 	}
 	prog.ResolveAlias = func(info *types.Info, id *ast.Ident) *ast.Ident {
-		next, _ := ast.Unparen(derefStepQuiet(info, id)).(*ast.Ident)
-		return next
+		if next, _ := ast.Unparen(derefStepQuiet(info, id)).(*ast.Ident); next != nil {
+			return next
+		}
+		// `a, b := helper(...)` where the extracted helper returns its own variable at that position
+		// (on every return that is not a zero value): the caller's variable names the helper's
+		if inDerefStep {
+			return nil
+		}
+		inDerefStep = true
+		defer func() { inDerefStep = false }()
+		if t := derefTuple(info, id); t != nil {
+			if next, ok := ast.Unparen(t).(*ast.Ident); ok {
+				return next
+			}
+		}
+		return nil
 	}
 	pathsim.PredicateBody = func(info *types.Info, call *ast.CallExpr) ast.Expr {
 		return predicateBody(info, call)
